@@ -12,6 +12,8 @@ import (
 type SimplePKI struct {
 	Root  *gen.Cert
 	Inter *gen.Cert // nil for depth 1
+	// Form of the lists CRL() builds: "" v2 with cRLNumber | "nonumber" v2 without cRLNumber | "v1" version 1, no extensions
+	Form string
 }
 
 // NewSimplePKI builds a PKI. name distinguishes issuers between cases.
@@ -49,11 +51,16 @@ func (p *SimplePKI) ChainFor(leaf *gen.Cert) [][]*x509.Certificate {
 
 // CRL builds a v2 CRL of the issuing CA listing the serials.
 func (p *SimplePKI) CRL(number int, serials ...string) []byte {
-	return CRLFor(p.Issuer(), number, serials...)
+	return CRLForm(p.Issuer(), number, p.Form, serials...)
 }
 
 // CRLFor builds a v2 CRL signed by ca listing serials (hex magnitudes).
 func CRLFor(ca *gen.Cert, number int, serials ...string) []byte {
+	return CRLForm(ca, number, "", serials...)
+}
+
+// CRLForm is CRLFor with the list form of SimplePKI.Form (number still moves thisUpdate forward).
+func CRLForm(ca *gen.Cert, number int, form string, serials ...string) []byte {
 	s := gen.CRLSpec{Version: 1, IssuerDER: ca.Cert.RawSubject, ThisUpdate: 1700000000 + int64(number), NextUpdate: 1900000000,
 		HasExts: true, Exts: []gen.Ext{gen.CRLNumberExt([]byte{byte(number >> 8), byte(number)})}}
 	s.SigAlg = gen.CompatibleAlgs(ca.Key)[2]
@@ -62,6 +69,13 @@ func CRLFor(ca *gen.Cert, number int, serials ...string) []byte {
 	}
 	for i, h := range serials {
 		s.Entries = append(s.Entries, gen.Entry{SerialHex: h, Date: 1690000000 + int64(i)})
+	}
+	switch form {
+	case "nonumber":
+		s.Exts = s.Exts[1:]
+		s.HasExts = len(s.Exts) > 0
+	case "v1":
+		s.Version, s.HasExts, s.Exts = -1, false, nil
 	}
 	der, err := s.Build(ca.Key)
 	if err != nil {
